@@ -3,6 +3,10 @@
 From V Require Import CF.SemDecide.
 From Coq Require Import Lia.
 
+Lemma stmts_ind' (P : stmts -> Prop) :
+  P SNil -> (forall t r, P r -> P (SCons t r)) -> forall l, P l.
+Proof. intros H0 H1. fix F 1. intros [|t r]; [exact H0 | apply H1, F]. Qed.
+
 Lemma memN_In x l : memN x l = true <-> In x l.
 Proof.
   induction l as [|y r IH]; cbn [memN In]; [split; [discriminate | tauto]|].
@@ -420,6 +424,20 @@ Proof. split; [apply exec_csem | apply csem_exec]. Qed.
 
 (* ------------------------------------------------------------------ *)
 (* enters <-> reach *)
+Lemma hoist_in_reach l : forall pi, In pi (hoist_l l) -> In pi (reach_l l).
+Proof.
+  induction l as [|t r IH] using stmts_ind'; intros pi H; [exact H|]. cbn [hoist_l reach_l] in *.
+  apply in_app_or in H. apply in_or_app. destruct H as [H | H].
+  - left. destruct t; try (destruct H). right. exact H.
+  - right. destruct (cN (csem t [])); [apply IH; exact H | exact H].
+Qed.
+
+Lemma fn_in_hoist l p n pb b : In (SFnDecl p n pb b) (stmts_to_list l) -> forall pi, In pi (reach_l b) -> In pi (hoist_l l).
+Proof.
+  induction l as [|t r IH] using stmts_ind'; intros H pi Hpi; [destruct H|]. cbn [stmts_to_list hoist_l] in *.
+  apply in_or_app. destruct H as [-> | H]; [left; exact Hpi | right; apply IH; assumption].
+Qed.
+
 Lemma enters_reach :
   (forall s pi, enters s pi -> In pi (reach s)) /\
   (forall l pi, enters_l l pi -> In pi (reach_l l)) /\
@@ -450,6 +468,7 @@ Proof.
   - intros s r pi _ IH. cbn [reach_l]. apply in_or_app. left. exact IH.
   - intros s r pi Hx _ IH. cbn [reach_l]. apply in_or_app. right.
     apply exec_iff_csem in Hx. cbn [cin] in Hx. rewrite Hx. exact IH.
+  - intros l p n pb b pi Hin _ IH. apply hoist_in_reach. eapply fn_in_hoist; eassumption.
   - intros cp d ft b r pi _ IH. cbn [reach_c]. apply in_or_app. left. exact IH.
   - intros cp d ft b r pi _ IH. cbn [reach_c]. apply in_or_app. right. exact IH.
 Qed.
@@ -466,39 +485,47 @@ Proof.
   eapply N_loop; [exact Hs | exact Hpre | apply IH; exact H].
 Qed.
 
-Lemma reach_enters :
-  (forall s pi, In pi (reach s) -> enters s pi) /\
-  (forall l pi, In pi (reach_l l) -> enters_l l pi) /\
-  (forall cs pi, In pi (reach_c cs) -> enters_c cs pi).
+(* the invariant of the converse direction; for a list also: a position in `hoist_l` lies in the body of one of the
+   function declarations of the list *)
+Definition RE_s (s : stmt) : Prop :=
+  (forall pi, In pi (reach s) -> enters s pi) /\
+  match s with SFnDecl _ _ _ b => forall pi, In pi (reach_l b) -> enters_l b pi | _ => True end.
+Definition RE_l (l : stmts) : Prop :=
+  (forall pi, In pi (reach_l l) -> enters_l l pi) /\
+  (forall pi, In pi (hoist_l l) -> exists p n pb b, In (SFnDecl p n pb b) (stmts_to_list l) /\ enters_l b pi).
+Definition RE_c (cs : cases) : Prop := forall pi, In pi (reach_c cs) -> enters_c cs pi.
+
+Lemma reach_enters_inv : (forall s, RE_s s) /\ (forall l, RE_l l) /\ (forall cs, RE_c cs).
 Proof.
   apply stmt_mutind.
-  - intros p e pi [<- | []]. apply (N_self (SExpr p e)).
-  - intros p pi [<- | []]. apply (N_self (SEmpty p)).
-  - intros p v i pi [<- | []]. apply (N_self (SVar p v i)).
-  - intros p n pb b IHb pi [<- | H]; [apply (N_self (SFnDecl p n pb b)) | apply N_fndecl; apply IHb; exact H].
-  - intros p pb b IHb pi [<- | H]; [apply (N_self (SArrowStmt p pb b)) | apply N_arrow; apply IHb; exact H].
-  - intros p gp pb b IHb pi [<- | H]; [apply (N_self (SGetterStmt p gp pb b)) | apply N_getter; apply IHb; exact H].
-  - intros p a pi [<- | []]. apply (N_self (SRet p a)).
-  - intros p e pi [<- | []]. apply (N_self (SThrow p e)).
-  - intros p l pi [<- | []]. apply (N_self (SBrk p l)).
-  - intros p l pi [<- | []]. apply (N_self (SCont p l)).
-  - intros p b IHb pi [<- | H]; [apply (N_self (SBlock p b)) | apply N_block; apply IHb; exact H].
-  - intros p c a IHa pi [<- | H]; [apply (N_self (SIf p c a))|].
+  - intros p e. split; [|exact I]. intros pi [<- | []]. apply (N_self (SExpr p e)).
+  - intros p. split; [|exact I]. intros pi [<- | []]. apply (N_self (SEmpty p)).
+  - intros p v i. split; [|exact I]. intros pi [<- | []]. apply (N_self (SVar p v i)).
+  - intros p n pb b [IHb _]. split; [|exact IHb].
+    intros pi [<- | H]; [apply (N_self (SFnDecl p n pb b)) | apply N_fndecl; apply IHb; exact H].
+  - intros p pb b [IHb _]. split; [|exact I]. intros pi [<- | H]; [apply (N_self (SArrowStmt p pb b)) | apply N_arrow; apply IHb; exact H].
+  - intros p gp pb b [IHb _]. split; [|exact I]. intros pi [<- | H]; [apply (N_self (SGetterStmt p gp pb b)) | apply N_getter; apply IHb; exact H].
+  - intros p a. split; [|exact I]. intros pi [<- | []]. apply (N_self (SRet p a)).
+  - intros p e. split; [|exact I]. intros pi [<- | []]. apply (N_self (SThrow p e)).
+  - intros p l. split; [|exact I]. intros pi [<- | []]. apply (N_self (SBrk p l)).
+  - intros p l. split; [|exact I]. intros pi [<- | []]. apply (N_self (SCont p l)).
+  - intros p b [IHb _]. split; [|exact I]. intros pi [<- | H]; [apply (N_self (SBlock p b)) | apply N_block; apply IHb; exact H].
+  - intros p c a [IHa _]. split; [|exact I]. intros pi [<- | H]; [apply (N_self (SIf p c a))|].
     destruct (may_true c) eqn:Hc; [|destruct H]. apply N_if; [exact Hc | apply IHa; exact H].
-  - intros p c a IHa b IHb pi [<- | H]; [apply (N_self (SIfElse p c a b))|].
+  - intros p c a [IHa _] b [IHb _]. split; [|exact I]. intros pi [<- | H]; [apply (N_self (SIfElse p c a b))|].
     apply in_app_or in H. destruct H as [H|H].
     + destruct (may_true c) eqn:Hc; [|destruct H]. apply N_ifelse_then; [exact Hc | apply IHa; exact H].
     + destruct (may_false c) eqn:Hc; [|destruct H]. apply N_ifelse_else; [exact Hc | apply IHb; exact H].
-  - intros p c b IHb pi H. eapply loop_reach_enters; [reflexivity | intros pi' [] | exact IHb | exact H].
-  - intros p b IHb c pi H. eapply loop_reach_enters; [reflexivity | intros pi' [] | exact IHb | exact H].
-  - intros p c b IHb pi H. destruct c as [c|]; (eapply loop_reach_enters; [reflexivity | intros pi' [] | exact IHb | exact H]).
-  - intros p b IHb pi H. eapply loop_reach_enters; [reflexivity | intros pi' [] | exact IHb | exact H].
-  - intros p b IHb pi H. eapply loop_reach_enters; [reflexivity | intros pi' [] | exact IHb | exact H].
-  - intros p g fp pb hb IHh b IHb pi H.
+  - intros p c b [IHb _]. split; [|exact I]. intros pi H. eapply loop_reach_enters; [reflexivity | intros pi' [] | exact IHb | exact H].
+  - intros p b [IHb _] c. split; [|exact I]. intros pi H. eapply loop_reach_enters; [reflexivity | intros pi' [] | exact IHb | exact H].
+  - intros p c b [IHb _]. split; [|exact I]. intros pi H. destruct c as [c|]; (eapply loop_reach_enters; [reflexivity | intros pi' [] | exact IHb | exact H]).
+  - intros p b [IHb _]. split; [|exact I]. intros pi H. eapply loop_reach_enters; [reflexivity | intros pi' [] | exact IHb | exact H].
+  - intros p b [IHb _]. split; [|exact I]. intros pi H. eapply loop_reach_enters; [reflexivity | intros pi' [] | exact IHb | exact H].
+  - intros p g fp pb hb [IHh _] b [IHb _]. split; [|exact I]. intros pi H.
     eapply loop_reach_enters; [reflexivity | intros pi' H'; apply N_forhead; apply IHh; exact H' | exact IHb | exact H].
-  - intros p cs IH pi [<- | H]; [apply (N_self (SSwitch p cs)) | apply N_switch; apply IH; exact H].
-  - intros p l b IHb pi [<- | H]; [apply (N_self (SLabel p l b)) | apply N_label; apply IHb; exact H].
-  - intros p bp blk IHb h hb IHh f fb IHf pi [<- | H]; [apply (N_self (STry p bp blk h hb f fb))|].
+  - intros p cs IH. split; [|exact I]. intros pi [<- | H]; [apply (N_self (SSwitch p cs)) | apply N_switch; apply IH; exact H].
+  - intros p l b [IHb _]. split; [|exact I]. intros pi [<- | H]; [apply (N_self (SLabel p l b)) | apply N_label; apply IHb; exact H].
+  - intros p bp blk [IHb _] h hb [IHh _] f fb [IHf _]. split; [|exact I]. intros pi [<- | H]; [apply (N_self (STry p bp blk h hb f fb))|].
     apply in_app_or in H. destruct H as [H|H]; [apply N_try_block; apply IHb; exact H|].
     apply in_app_or in H. destruct H as [H|H].
     + destruct h as [hp|]; [|destruct H]. destruct (cT (csem_l blk)) eqn:Ht; [|destruct H].
@@ -509,15 +536,33 @@ Proof.
       destruct Hk as [[Hk Hor] | [hp [-> [Ht Hk]]]].
       * eapply N_try_finally; [apply exec_l_iff_csem; exact Hk | exact Hor | apply IHf; exact H].
       * eapply N_try_catch_finally; [apply exec_l_iff_csem; exact Ht | apply exec_l_iff_csem; exact Hk | apply IHf; exact H].
-  - intros pi [].
-  - intros s IHs r IHr pi H. cbn [reach_l] in H. apply in_app_or in H. destruct H as [H|H].
+  - split; [intros pi [] | intros pi []].
+  - intros s [IHs IHs'] r [IHr IHr'].
+    assert (Hh : forall pi, In pi (hoist_l (SCons s r)) ->
+                 exists p n pb b, In (SFnDecl p n pb b) (stmts_to_list (SCons s r)) /\ enters_l b pi).
+    { intros pi H. cbn [hoist_l] in H. apply in_app_or in H. destruct H as [H | H].
+      - destruct s; try (destruct H).
+        match goal with |- exists _ _ _ _, In _ (stmts_to_list (SCons (SFnDecl ?p0 ?n0 ?pb0 ?b0) _)) /\ _ => exists p0, n0, pb0, b0 end.
+        split; [left; reflexivity | apply IHs'; exact H].
+      - destruct (IHr' pi H) as [p [n [pb [b [Hin He]]]]]. exists p, n, pb, b. split; [right; exact Hin | exact He]. }
+    split; [|exact Hh].
+    intros pi H. cbn [reach_l] in H. apply in_app_or in H. destruct H as [H|H].
     + apply NL_here. apply IHs. exact H.
-    + destruct (cN (csem s [])) eqn:Hn; [|destruct H].
-      apply NL_next; [apply exec_iff_csem; exact Hn | apply IHr; exact H].
+    + destruct (cN (csem s [])) eqn:Hn.
+      * apply NL_next; [apply exec_iff_csem; exact Hn | apply IHr; exact H].
+      * destruct (IHr' pi H) as [p [n [pb [b [Hin He]]]]]. eapply NL_hoist; [right; exact Hin | exact He].
   - intros pi [].
-  - intros cp d ft b IHb r IHr pi H. cbn [reach_c] in H. apply in_app_or in H. destruct H as [H|H].
+  - intros cp d ft b [IHb _] r IHr pi H. cbn [reach_c] in H. apply in_app_or in H. destruct H as [H|H].
     + apply NC_here. apply IHb. exact H.
     + apply NC_later. apply IHr. exact H.
+Qed.
+
+Lemma reach_enters :
+  (forall s pi, In pi (reach s) -> enters s pi) /\
+  (forall l pi, In pi (reach_l l) -> enters_l l pi) /\
+  (forall cs pi, In pi (reach_c cs) -> enters_c cs pi).
+Proof.
+  destruct reach_enters_inv as [HS [HL HC]]. split; [intros s; apply HS | split; [intros l; apply HL | exact HC]].
 Qed.
 
 Theorem enters_iff_reach s pi : enters s pi <-> In pi (reach s).
